@@ -140,6 +140,21 @@ template<typename Cont> static void release_with_ctx(const char *shape) {
     ORDER.clear();
     std::move(c).drop();
     printf("CASE release %s x x %s order=%s\n", shape, ORDER == "instance;context;" ? "ok" : "bad", ORDER.c_str());
+    /* a handle the user released explicitly is empty afterwards: the regular clean-up of its owner must not release it again */
+    Cont e;
+    e.instance = CBox<void>(&dummy, rec_inst);
+    e.context.instance = &dummy; e.context.clone_fn = rec_clone; e.context.drop_fn = rec_ctx;
+    ORDER.clear();
+    mem_drop(std::move(e.context));
+    std::move(e).drop();
+    printf("CASE release_after_ctx %s x x %s order=%s\n", shape, ORDER == "context;instance;" ? "ok" : "bad", ORDER.c_str());
+    Cont g;
+    g.instance = CBox<void>(&dummy, rec_inst);
+    g.context.instance = &dummy; g.context.clone_fn = rec_clone; g.context.drop_fn = rec_ctx;
+    ORDER.clear();
+    mem_drop(std::move(g.instance));
+    std::move(g).drop();
+    printf("CASE release_after_inst %s x x %s order=%s\n", shape, ORDER == "instance;context;" ? "ok" : "bad", ORDER.c_str());
     Cont f;
     f.instance = CBox<void>(&dummy, rec_inst);
     f.context.instance = &dummy; f.context.clone_fn = rec_clone; f.context.drop_fn = rec_ctx;
@@ -341,7 +356,7 @@ def parse(text):
         kind = f[1]
         if kind == "citer":
             cases.append({"kind": kind, "key": " ".join(f[1:5]), "ok": f[5] == "ok", "detail": " ".join(f[6:]), "sub": f[2], "len": int(f[3][4:])})
-        elif kind in ("release", "forget"):
+        elif kind in ("release", "forget", "release_after_ctx", "release_after_inst"):
             cases.append({"kind": kind, "key": " ".join(f[1:5]), "ok": f[5] == "ok", "detail": " ".join(f[6:])})
         elif kind in ("layout", "maybeuninit"):
             cases.append({"kind": kind, "key": " ".join(f[1:5]), "ok": f[5] == "ok", "detail": " ".join(f[6:])})
@@ -355,6 +370,8 @@ def parse(text):
 def signature(c):
     if c["kind"] == "citer":
         return "cpphelper:iterator:%s" % c["sub"]
+    if c["kind"] in ("release_after_ctx", "release_after_inst"):
+        return "cpphelper:released_handle_not_empty"
     if c["kind"] in ("release", "forget"):
         return "cpphelper:%s_order" % c["kind"]
     if c["kind"] in ("layout", "maybeuninit"):
@@ -410,7 +427,7 @@ def run(prop, tier, replay, Ctx):
                   "container layout for instance {CBox<void>, void*} x context {none, CArc<void>, 1/4/8/12-byte user contexts} x temporary storage {none, 1, 2, 4, 8, 24 bytes, "
                   "16-byte aligned} against the plain struct with the same members (size, alignment, offset of every member) and RustMaybeUninit<X> against X; "
                   "std::string <-> CSliceRef<char|unsigned char> for every byte string of length 0..=%d over {NUL, 'a', 0xC3, ' '} (address, length, bytes); "
-                  "CIterator<int> through the generated input iterator (range-for) and std::vector through CPPIterator for every int sequence up to length min(L, 5) over {0, 1, -1, 7}; drop() of the four container specialisations releases the instance, then the context; forget() nothing; OpaqueCallback<S3> from a std::vector, from a functor, from a function object that keeps its state in itself and from a mutable lambda for n = 0..=%d items x 5 stop positions; distinct = distinct (case, outcome)" % (L, N))
+                  "CIterator<int> through the generated input iterator (range-for) and std::vector through CPPIterator for every int sequence up to length min(L, 5) over {0, 1, -1, 7}; drop() of the four container specialisations releases the instance, then the context; forget() nothing; a context / instance handle released explicitly with mem_drop is empty afterwards (the container's later drop() does not release it again); OpaqueCallback<S3> from a std::vector, from a functor, from a function object that keeps its state in itself and from a mutable lambda for n = 0..=%d items x 5 stop positions; distinct = distinct (case, outcome)" % (L, N))
     if "compile_error" in r:
         rep.record(sec, {"kind": "all"}, None, True, ("cpphelper:compile_error", "the driver using the header's runtime-type templates does not compile:\n" + r["compile_error"][-900:]))
         return ("report", rep.build())
